@@ -1,7 +1,8 @@
-From C19 Require Import Model ProofsSpans.
+From C19 Require Import Model ProofsSpans ProofsCombined.
 Require Extraction.
 Require Import ExtrOcamlBasic.
 Extraction "model.ml" l_alloc heap_empty table_row regime_of class_of large_span_count huge_pages
   medium_limit huge_request realloc_inplace realloc_new_size copy_len usable_size chunk_of class_bs class_bc
   SMALL_SIZE_LIMIT MEDIUM_SIZE_LIMIT LARGE_SIZE_LIMIT SIZE_CLASS_COUNT
-  sempty op_map op_from_reserve op_set_status op_unmap op_finalize.
+  sempty op_map op_from_reserve op_set_status op_unmap op_finalize
+  cstep mk_cstate reserve_of.
